@@ -50,6 +50,12 @@ raising     a function that can raise has result type `Option T`; every exceptio
             division, is accepted only where Python evaluates it unconditionally within its statement
             (not under `and`/`or`/`if-else` operands) - otherwise refused.
 
+half-integers  float literals that are multiples of 0.5 and sums / differences / int multiples / comparisons of them
+            with ints, and `int(x)` (truncation toward zero, `pyTruncHalf`), are carried EXACTLY as the integer 2x.
+            This is the double arithmetic of Python as long as every value stays below 2^52 in magnitude (doubles
+            represent those half-integers exactly and the operations are exact); the differential validation and
+            the claimed domain of such functions are bounded accordingly (inputs below 2^45: beyond 2^49 the real
+            `CartesianGrid.getRingPos` itself loses the last bit of `7 * ring + j`).  Other float code is refused.
 small strings  a `str` is the `List Int` of its code points: literals, a `str` parameter, `str(int)`,
             `"{:0Nd}".format(int)` as a value, `"".join(e for c in s)`, `ord(c)` of an iterated character or a
             one-character literal, `chr(int)` (ValueError = raise), `len`, `s[k]`, `s[:k]`, `s[k:]`, `+`, `==`/`!=`,
@@ -80,6 +86,7 @@ VERIF = os.path.dirname(os.path.dirname(os.path.abspath(__file__)))
 GEN_PATH = os.path.join(VERIF, "lean", "ArmiVerif", "Gen", "Src.lean")
 
 INT, BOOL, NONE = ("int",), ("bool",), ("none",)
+HALF = ("half",)      # a float that is an exact multiple of 0.5, carried as the Int 2*x (see `half-integers` in the docstring)
 STR, CHAR = ("str",), ("char",)      # a string = `List Int` of code points; a char = one element of an iterated string
 
 
@@ -105,7 +112,7 @@ LEAN_RESERVED = {
     "Option", "decide", "not", "and", "or", "deriving", "private", "partial", "mutual", "variable", "universe",
     "import", "export", "macro", "syntax", "notation", "infix", "prefix", "postfix", "using", "calc", "this",
     "termination_by", "decreasing_by", "return", "for", "while", "unless", "try", "catch", "finally", "mut",
-    "pyAbs", "pyTake", "pyDrop", "pyIdx", "pySum", "pyStr", "pyFmtD", "pyFmtFill", "pyIntOfStr", "pyChr", "showRaise", "dispatch",
+    "pyAbs", "pyTake", "pyDrop", "pyIdx", "pySum", "pyStr", "pyFmtD", "pyFmtFill", "pyTruncHalf", "pyIntOfStr", "pyChr", "showRaise", "dispatch",
 }
 
 
@@ -153,7 +160,7 @@ TARGETS = [
     Target("armi/reactor/grids/thetarz.py", "ThetaRZGrid.getIndicesFromRingAndPos"),
     Target("armi/reactor/grids/cartesian.py", "CartesianGrid.getPositionsInRing",
            binds={"self._isThroughCenter()": ("throughCenter", BOOL)}),
-    Target("armi/reactor/grids/cartesian.py", "CartesianGrid.getRingPos", types={"indices": T3},
+    Target("armi/reactor/grids/cartesian.py", "CartesianGrid.getRingPos", types={"indices": T2},
            binds={"self._isThroughCenter()": ("throughCenter", BOOL)}),
     Target("armi/reactor/grids/cartesian.py", "CartesianGrid.getMinimumRings",
            binds={"self._isThroughCenter()": ("throughCenter", BOOL)}),
@@ -183,7 +190,7 @@ def lean_type(t):
         return "Bool"
     if k == "str":
         return "(List Int)"
-    if k == "char":
+    if k in ("char", "half"):
         return "Int"
     if k == "tuple":
         return "(" + " × ".join(lean_type(x) for x in t[1]) + ")"
@@ -198,7 +205,7 @@ def lean_type(t):
 
 def show_type(t):
     k = t[0]
-    if k in ("int", "bool", "none", "str", "char"):
+    if k in ("int", "bool", "none", "str", "char", "half"):
         return k
     if k == "tuple":
         return "(" + ",".join(show_type(x) for x in t[1]) + ")"
@@ -446,6 +453,7 @@ class FnTranslator:
         self.selfname = None
         self.strfmt = None
         self.nonfmt_returns = 0
+        self.uses_half = False
         self.loops = []          # (lean name, fixed params [(lean, type)], state [(lean, type)], body IR)
 
     # ---- entry
@@ -530,7 +538,7 @@ class FnTranslator:
             "def_text": self.render_loops(ret_t) + f"def {self.tgt.qual} {plist} : {full_t} :=\n{text}\n",
             "norm_src": norm, "src_hash": hashlib.sha1(norm.encode()).hexdigest()[:12],
             "literals": sorted(self.literals), "deps": list(self.deps), "kind": kind, "strfmt": self.strfmt,
-            "has_loop": bool(self.loops),
+            "has_loop": bool(self.loops), "uses_half": self.uses_half,
         }
 
     # ---- "small strings": a returned format string of ints is translated as the tuple of its int arguments
@@ -898,6 +906,9 @@ class FnTranslator:
                 return E(int_lit(v), INT, lit=v)
             if type(v) is str:
                 return self.str_lit(v)
+            if type(v) is float and v == v and abs(v) < 2 ** 40 and float(int(2 * v)) == 2 * v:
+                self.uses_half = True
+                return E(int_lit(int(2 * v)), HALF)
             raise Refuse(f"{type(v).__name__} literal `{v!r}`"[:80])
         if isinstance(node, ast.Name):
             n = node.id
@@ -925,6 +936,8 @@ class FnTranslator:
                 e = self.truthy(self.expr(node.operand, env, cond=True))
                 return E(f"(¬{e.s})", BOOL)
             e = self.expr(node.operand, env)
+            if e.t == HALF and isinstance(node.op, (ast.USub, ast.UAdd)):
+                return E(f"(-{e.s})", HALF) if isinstance(node.op, ast.USub) else e
             if e.t != INT:
                 raise Refuse(f"unary operator on a {show_type(e.t)}")
             if isinstance(node.op, ast.USub):
@@ -967,6 +980,11 @@ class FnTranslator:
             a = self.expr(node.body, env, cond=cond)
             b2 = self.expr(node.orelse, env, cond=cond)
             self.strict = saved
+            if a.t != b2.t and a.t in (STR, CHAR) and b2.t in (STR, CHAR):
+                a, b2 = self.as_str(a), self.as_str(b2)
+            if {a.t, b2.t} == {INT, HALF}:      # `0 if c else 0.5`: Python's int branch behaves as the equal float
+                a = a if a.t == HALF else E(f"((2 : Int) * {a.s})", HALF)
+                b2 = b2 if b2.t == HALF else E(f"((2 : Int) * {b2.s})", HALF)
             if a.t != b2.t:
                 if cond:
                     a, b2 = self.truthy(a), self.truthy(b2)
@@ -976,7 +994,7 @@ class FnTranslator:
                 return E(f"(if {c.s} then {a.s} else {b2.s})", BOOL)
             if a.t == NONE:
                 raise Refuse("conditional expression of None")
-            return E(f"(if {c.s} then {as_val(a)} else {as_val(b2)})", a.t)
+            return E(f"(if {c.s} then {as_val(a)} else {as_val(b2)})", a.t, dec=(a.t == STR and a.dec and b2.dec))
         if isinstance(node, ast.Tuple):
             elts = [self.expr(x, env) for x in node.elts]
             if not elts or any(isinstance(x, ast.Starred) for x in node.elts):
@@ -1095,6 +1113,14 @@ class FnTranslator:
         b = self.expr(node.right, env)
         if isinstance(op, ast.Add) and a.t in (STR, CHAR) and b.t in (STR, CHAR):
             return self.str_concat([self.as_str(a), self.as_str(b)])
+        if HALF in (a.t, b.t) and a.t in (INT, HALF) and b.t in (INT, HALF):
+            dbl = lambda e: e.s if e.t == HALF else f"((2 : Int) * {e.s})"
+            if isinstance(op, (ast.Add, ast.Sub)):
+                sym = "+" if isinstance(op, ast.Add) else "-"
+                return E(f"({dbl(a)} {sym} {dbl(b)})", HALF)
+            if isinstance(op, ast.Mult) and INT in (a.t, b.t):
+                return E(f"({a.s} * {b.s})", HALF)      # int * (2x) = 2 * (int * x)
+            raise Refuse("arithmetic on half-integers other than + - and multiplication by an int")
         if a.t != INT or b.t != INT:
             raise Refuse(f"arithmetic `{type(op).__name__}` on {show_type(a.t)} and {show_type(b.t)}")
         if isinstance(op, (ast.Add, ast.Sub, ast.Mult)):
@@ -1135,6 +1161,10 @@ class FnTranslator:
                     raise Refuse(f"comparison `{type(op).__name__}`")
                 if left.t in (STR, CHAR) and right.t in (STR, CHAR) and sym in ("=", "≠"):
                     parts.append(f"({self.as_str(left).s} {sym} {self.as_str(right).s})")
+                elif HALF in (left.t, right.t) and left.t in (INT, HALF) and right.t in (INT, HALF):
+                    dl = left.s if left.t == HALF else f"((2 : Int) * {left.s})"
+                    dr = right.s if right.t == HALF else f"((2 : Int) * {right.s})"
+                    parts.append(f"({dl} {sym} {dr})")
                 elif left.t != right.t:
                     raise Refuse(f"comparison of {show_type(left.t)} with {show_type(right.t)}")
                 elif left.t == INT:
@@ -1285,6 +1315,8 @@ class FnTranslator:
                 return E(s, INT)
             if f.id == "int" and len(args) == 1 and args[0].t == INT:
                 return args[0]
+            if f.id == "int" and len(args) == 1 and args[0].t == HALF:
+                return E(f"(pyTruncHalf {args[0].s})", INT)
             if f.id == "int" and len(args) == 1 and args[0].t == STR:
                 if not args[0].dec:
                     raise Refuse("`int` of a string that is not known to consist of decimal digits / a sign "
